@@ -78,6 +78,16 @@ def step (t : List String) : Option String :=
       let cell := (regionOf 0).base + 16
       let r := sandboxPtrCast 16 (.tvol cell (if a = 0 then 0 else a - (regionOf 0).base))
       pure (if r = 0 then "ok null" else s!"ok in0:{r - (regionOf 0).base}")
+  | ["scastp", _w, dir, off] => do
+      -- CDerived : CBaseA, CBaseB with one `long` each: the CBaseB subobject sits 8 bytes into a CDerived (application layout)
+      let a ← addrOf off
+      let delta : Int := if dir == "derived>baseb" then 8 else if dir == "baseb>derived" then -8 else 0
+      pure s!"ok {showAddr 2 (staticCastClassPtr delta a)}"
+  | ["opqalias", v1, v2] => do
+      let v1 ← parseInt? v1; let v2 ← parseInt? v2
+      if ¬ (BaseTy.long.app).inRange v1 ∨ ¬ (BaseTy.long.app).inRange v2 then pure "badinput" else
+      -- the opaque value is a copy taken at the call: later writes to the tainted variable do not show through it
+      pure s!"ok {v1} {Int.tmod v1 1000 + 2}"
   | ["opqarg", v] => do
       let x ← parseInt? v
       if ¬ (BaseTy.long.app).inRange x then pure "badinput" else
